@@ -61,6 +61,7 @@ def gen_params(rng, variant=None):
         {"prod": "P", "assets": "A", "shots": "S", "output": "O", "export": "E", "renders": "R"}])
     p["mapping_style"] = "demo" if ident else rng.choice(["demo", "identity", "swap", "demo", "partial"])
     p["leaf_per_basetype"] = False if ident else rng.random() < 0.5
+    p["dotdot_root"] = False         # (set by the C20 stratification: the configured root folder is spelled with a '..' component)
     p["prefix_vocab"] = False        # (set by the C20 stratification only: a closed vocabulary with 'x' and 'x<sep>big' - see known finding resolva_repeated_placeholder)
     p["derived_configs"] = False if ident else rng.random() < 0.4      # secondary path configurations derived from the main module ("import *")
     p["constants"] = True if ident else rng.random() < 0.7
@@ -321,6 +322,8 @@ def emit(p, dirpath):
 
     def fsmod(root_name, mapping=None, kp=None, defaults=None):
         lines = ["from spil_sid_conf import key_patterns as _kp", "import copy", "from pathlib import Path",
+                 ("project_root_path = Path(__file__).parent / 'data' / 'testing' / 'SPIL_PROJECTS' / 'other' / '..' / %r / 'PROJECTS'" % root_name)
+                 if p.get("dotdot_root") else
                  "project_root_path = Path(__file__).parent / 'data' / 'testing' / 'SPIL_PROJECTS' / %r / 'PROJECTS'" % root_name,
                  "path_templates = {}"]
         for n, t in d["path_templates"]:
